@@ -871,3 +871,32 @@ pub fn print_val(v: &Val) -> String {
     val_toks(v, &mut o);
     o.join(" ")
 }
+
+/// Render with explicit separators: `sep(i)` is the text between token i-1 and token i
+/// (i >= 1); returns the text and the byte offset of every token.
+pub fn render_with(toks: &[Tok], sep: &dyn Fn(usize) -> String, trailer: &str) -> (String, Vec<usize>) {
+    let mut s = String::new();
+    let mut offs = Vec::with_capacity(toks.len());
+    for (i, tk) in toks.iter().enumerate() {
+        if i > 0 {
+            s.push_str(&sep(i));
+        }
+        offs.push(s.len());
+        s.push_str(&tk.text);
+    }
+    s.push_str(trailer);
+    (s, offs)
+}
+
+/// the default separator before token i (see render_default)
+pub fn default_sep(toks: &[Tok], i: usize, crlf: bool) -> String {
+    let prev = &toks[i - 1];
+    let tk = &toks[i];
+    if prev.module != tk.module || prev.item != tk.item {
+        if crlf { "\r\n".into() } else { "\n".into() }
+    } else if tk.text == "," || tk.text == ";" {
+        String::new()
+    } else {
+        " ".into()
+    }
+}
